@@ -217,6 +217,10 @@ class SymArray:
             for k, j in enumerate(idx):
                 base.d[j] = self.d[k]
             base._sync()
+        elif b[0] == "flat":
+            _, base, ncols = b
+            for k, v in enumerate(self.d):
+                base.d[k // ncols].d[k % ncols] = v
         else:
             _, rows, c = b
             for k, row in enumerate(rows):
@@ -658,6 +662,31 @@ class SymArray:
     def flatten(self):
         return SymArray(self._flat(), self.dtype_tag)
 
+    def ravel(self, order="C"):
+        """A flat VIEW when the array is C-contiguous (writes through it land in the array), a copy otherwise - a negative-stride
+        view, or a 2-D array in Fortran order (`_order == "F"`: a transposed array, np.asfortranarray, and what the *_like
+        constructors make from one)."""
+        if self.ndim == 1:
+            if self.__dict__.get("_mem") is None:
+                return self
+            return SymArray(list(self.d), self.dtype_tag)
+        flat = SymArray(self._flat(), self.dtype_tag)
+        if self.__dict__.get("_order", "C") == "C":
+            flat._base = ("flat", self, self._ncols)
+        return flat
+
+    @property
+    def T(self):
+        if self.ndim == 1:
+            return self
+        rows, cols = self.shape
+        t = SymArray([SymArray([self.d[r].d[c] for r in range(rows)], self.dtype_tag) for c in range(cols)], self.dtype_tag, (cols, rows))
+        t._order = "F" if self.__dict__.get("_order", "C") == "C" else "C"     # same memory, other index order (writes through it are not modelled)
+        return t
+
+    def transpose(self, *axes):
+        return self.T
+
     # pandas Series methods (a DataFrame column read returns the column array)
     def isna(self):
         return self._map(lambda v: bool(getattr(v, "__sx_nan__", False)), "bool")
@@ -904,7 +933,9 @@ def _zd(x):
 def _zd_bin(name):
     def f(self, o):
         if isinstance(o, SymArray):
-            return NotImplemented
+            # 0-d with n-d: broadcast the value
+            return getattr(o, {"__add__": "__radd__", "__radd__": "__add__", "__sub__": "__rsub__", "__rsub__": "__sub__", "__mul__": "__rmul__", "__rmul__": "__mul__",
+                               "__truediv__": "__rtruediv__", "__rtruediv__": "__truediv__", "__pow__": "__rpow__", "__rpow__": "__pow__"}[name])(self.v)
         return getattr(lift(self.v) if not isinstance(self.v, (bool, SymBool)) else self.v, name)(_zd(o))
     f.__name__ = name
     return f
@@ -1106,7 +1137,10 @@ class NP:
                 return self._like(asarray(a), v, dtype)
             t = SymArray([], tag)
             return t._coerce(v)
-        return self.full(a.shape, v, tag)
+        r = self.full(a.shape, v, tag)
+        if a.ndim == 2 and a.__dict__.get("_order", "C") == "F":
+            r._order = "F"              # order="K": the layout of the template
+        return r
 
     def empty_like(self, a, dtype=None, order=None, subok=None, shape=None):
         return self._like(a, UNINIT, dtype, shape)
@@ -1394,8 +1428,23 @@ class NP:
     def nan_to_num(self, x, copy=True, nan=0.0, posinf=None, neginf=None):
         return x        # symbolic values are finite reals; NaN / inf are carried separately and never reach here silently
 
-    def ravel(self, a):
-        return asarray(a).flatten()
+    def ravel(self, a, order="C"):
+        a = asarray(a)
+        return a.ravel() if isinstance(a, SymArray) else SymArray([a], _dtype_of_scalar(a))
+
+    def asfortranarray(self, a, dtype=None):
+        a = asarray(a, dtype)
+        if isinstance(a, SymArray) and a.ndim == 2:
+            r = SymArray([SymArray(list(row.d), a.dtype_tag) for row in a.d], a.dtype_tag, a.shape)
+            r._order = "F"
+            return r
+        return a
+
+    def ascontiguousarray(self, a, dtype=None):
+        a = asarray(a, dtype)
+        if isinstance(a, SymArray) and a.ndim == 2:
+            return SymArray([SymArray(list(row.d), a.dtype_tag) for row in a.d], a.dtype_tag, a.shape)
+        return a
 
     def reshape(self, a, shape):
         a = asarray(a)
@@ -1831,6 +1880,35 @@ class MATH:
 
     @staticmethod
     def isfinite(x): return not (isinstance(x, float) and (math.isinf(x) or math.isnan(x)))
+
+    @staticmethod
+    def isclose(a, b, rel_tol=1e-09, abs_tol=0.0):
+        """|a - b| <= max(rel_tol * max(|a|, |b|), abs_tol) (the symmetric definition of math.isclose)."""
+        a, b = _zd(a), _zd(b)
+        d = abs(lift(a) - lift(b))
+        big = s_ite(_cmp(abs(lift(a)), abs(lift(b)), "ge"), abs(lift(a)), abs(lift(b)))
+        bound = concrete(rel_tol) * big if concrete(rel_tol) is not None else lift(rel_tol) * big
+        at = concrete(abs_tol) if concrete(abs_tol) is not None else lift(abs_tol)
+        return _bor(_cmp(d, bound, "le"), _cmp(d, at, "le"))
+
+    @staticmethod
+    def floor(x):
+        c = concrete(x)
+        if c is None:
+            raise Unsupported("math.floor of a symbolic value")
+        return QI(math.floor(c))
+
+    @staticmethod
+    def ceil(x):
+        c = concrete(x)
+        if c is None:
+            raise Unsupported("math.ceil of a symbolic value")
+        return QI(math.ceil(c))
+
+    def __getattr__(self, name):
+        if name.startswith("__"):
+            raise AttributeError(name)
+        raise Unsupported(f"math.{name} is not modelled")
 
 
 # builtins rebinding: keep Python's semantics on concrete values, ite on symbolic ones
